@@ -316,3 +316,24 @@ Proof.
     apply wake_terminates; auto. rewrite Hc2. now subst x.
   - destruct D2 as [Hx [Hr Hcut]]. repeat split; auto. subst x. auto.
 Qed.
+
+(* ---------- the idle deadline does not depend on open connections ---------- *)
+
+(* With prompt polling a server is never still SERVING later than last-received-request + T, whatever connections
+   are open and silent (LAccept / LClose change nothing about the timer). *)
+Lemma serving_bounded t cap evs :
+  let s := lexec (linit t cap) evs in
+  prompt (linit t cap) evs = true -> t <> 0 ->
+  lphase s = Serving -> lnow s <= llast_recv s + t.
+Proof.
+  intros s P Ht Hp. pose proof (pinv_exec evs _ (pinv_init t cap) P) as I. fold s in I.
+  destruct (lexec_const (linit t cap) evs) as [Hc _]. simpl in Hc. fold s in Hc.
+  unfold PInv in I. rewrite Hp in I. rewrite Hc in I.
+  destruct I as [[_ [_ Le]]|[_ [Lr _]]]; [now apply Le | lia].
+Qed.
+
+(* ... and once the idle shutdown phase has begun, open connections delay the exit by at most the cap *)
+Lemma idle_drain_ends s since :
+  lphase s = Draining since RIdle -> since + lcap s <= lnow s ->
+  exists cut, lphase (lstep s LWake) = Terminated since (lnow s) RIdle cut.
+Proof. intros Hp H. apply wake_terminates; auto. Qed.
